@@ -25,4 +25,48 @@ PROPS = {
             'file/CSV sources: see unit list (FileSource bounded, CsvSource not covered)',
         ],
     },
+    'C02': {
+        'level': 'proof',
+        'units': [
+            {'engine': 'verus', 'name': 'batcher', 'tier': 'quick', 'role': 'Batcher::{enqueue,flush,end}, NetworkMessage::{new_single,new_batch,sender}: view equation all = sent ++ pending'},
+        ],
+        'explanation': 'Verus proof (unbounded buffer length / batch size, every batch mode, every timing) that the real Batcher hands the link '
+                       'exactly the enqueued sequence: enqueue appends to the abstract view, flush/end send the whole pending tail as one batch '
+                       'stamped with the producer coordinate, nothing is dropped, duplicated or reordered.',
+        'assumptions': [
+            'the link itself (flume channel / TCP mux-demux) is a reliable FIFO: environment contract R-CHAN, not verified',
+        ],
+    },
+    'C03': {
+        'level': 'proof',
+        'units': [
+            {'engine': 'verus', 'name': 'next_strategy', 'tier': 'quick', 'role': 'NextStrategy::index'},
+            {'engine': 'verus', 'name': 'end_next', 'tier': 'quick', 'role': 'End::next routing contract'},
+        ],
+        'explanation': 'Verus proof, for any number of senders/groups, that End::next hands a data element to exactly one sender of every '
+                       'downstream group (the one at index(m) mod |group|) and to no other, broadcasts Watermark/FlushAndRestart to every sender, '
+                       'Terminate to every sender but the feedback edge; NextStrategy::index returns 0 / keyer(m) / any per connection kind.',
+        'assumptions': [
+            'builder wiring (which strategy a Stream method passes) is read, not verified',
+        ],
+    },
+    'C09': {
+        'level': 'proof',
+        'units': [
+            {'engine': 'verus', 'name': 'end_next', 'tier': 'quick', 'role': 'split (one copy per downstream block) and broadcast (All: singleton groups)'},
+        ],
+        'explanation': 'End::next sends one copy of every element to each downstream block group (split) and, with singleton groups (All), to every replica (broadcast).',
+        'assumptions': [],
+    },
+    'C18': {
+        'level': 'proof',
+        'units': [
+            {'engine': 'verus', 'name': 'batcher', 'tier': 'quick', 'role': 'enqueue flushes on full batch / expired delay; view independent of batch mode'},
+            {'engine': 'verus', 'name': 'end_next', 'tier': 'quick', 'role': 'FlushBatch / FlushAndRestart flush every batcher; Terminate ends every batcher'},
+        ],
+        'explanation': 'no-withholding safety: after End::next returns FlushBatch or FlushAndRestart no batcher has pending elements; adaptive/fixed batchers '
+                       'flush when full or when the delay expired (clock = any value); the delivered sequence is the same for every batch mode. '
+                       'The wall-clock bound itself is NOT decided (liveness/timing).',
+        'assumptions': ['wall-clock bound and thread scheduling are out of reach of this technique'],
+    },
 }
